@@ -108,7 +108,7 @@ def special_cases(rng, tier, rec, fam):
     from mashumaro.codecs.basic import BasicDecoder, BasicEncoder
     fam.exec_src(SPECIAL_PRE)
     mod = fam.module
-    which = rng.choice("ABC")
+    which = rng.choice("ABCD")
     det = lambda **kw: dict({"scenario": which}, **kw)
 
     def check(label, fn, expected, src=""):
@@ -187,6 +187,38 @@ def special_cases(rng, tier, rec, fam):
                 else:
                     rec.violation(f"special:B:root-{lab}:{name}", det(shape=shape_src, codec=name, document=repr(dump(doc))[:80], observed=f"{type(got).__name__}: {got!r}"[:200], expected=repr(exp)),
                                   {"scenario": "special-B"})
+    elif which == "D":
+        # recursive PEP 695 aliases: every level of the nesting is resolved by the same member rules, with the same flags
+        flags = rng.choice(["", "TO_DICT_ADD_OMIT_NONE_FLAG, TO_DICT_ADD_BY_ALIAS_FLAG"])
+        cfg = f"    class Config(BaseConfig):\n        code_generation_options = [{flags}]\n" if flags else ""
+        src = ("type Num = int | float\ntype Tree = Num | list[Tree]\ntype Flat = int | float | list[Flat]\ntype STree = int | str | list[STree]\n"
+               "@dataclass\nclass Leaf(DataClassDictMixin):\n    v: int = 0\n    note: Optional[str] = None\n    al: int = field(default=1, metadata=field_options(alias='AL'))\n" + cfg +
+               "type LTree = Leaf | list[LTree]\n"
+               "@dataclass\nclass HR(DataClassDictMixin):\n    flat: Flat = 0\n    st: STree = 0\n    lt: LTree = field(default_factory=list)\n" + cfg +
+               "@dataclass\nclass HT(DataClassDictMixin):\n    t: Tree = 0\n")
+        fam.exec_src(src)
+        HR, Leaf, HT = mod.HR, mod.Leaf, mod.HT
+        nested = [1, [2.5, [3, []]]]
+        check("decode|flat-members", lambda: HR.from_dict({"flat": nested}).flat, nested, src)
+        check("decode|alias-of-union-member", lambda: HT.from_dict({"t": nested}).t, nested, src)
+        check("decode|str-member-exact-at-depth", lambda: HR.from_dict({"st": ["a", [1, ["b", 2]]]}).st, ["a", [1, ["b", 2]]], src)
+        check("decode|dataclass-leaves", lambda: HR.from_dict({"lt": [{"v": 1}, [{"v": 2}, [{"v": 3}]]]}).lt, [Leaf(1), [Leaf(2), [Leaf(3)]]], src)
+        check("codec|alias-of-union-member", lambda: BasicDecoder(eval("Tree", mod.__dict__)).decode(nested), nested, src)
+        check("encode|flat-members", lambda: HR(flat=nested).to_dict()["flat"], nested, src)
+        check("encode|dataclass-leaves", lambda: HR(lt=[Leaf(1), [Leaf(2)]]).to_dict()["lt"], [{"v": 1, "note": None, "al": 1}, [{"v": 2, "note": None, "al": 1}]], src)
+        if flags:
+            check("encode|flags-reach-every-depth", lambda: HR(lt=[Leaf(1), [Leaf(2, "n")]]).to_dict(omit_none=True, by_alias=True)["lt"], [{"v": 1, "AL": 1}, [{"v": 2, "note": "n", "AL": 1}]], src)
+        # the alias-of-union member on the WRITING side (finding F57 on the pinned tree)
+        rec.evaluation()
+        try:
+            got = HT(t=nested).to_dict()["t"]
+        except Exception as e:
+            got = e
+        if got == nested:
+            rec.count("special_agree")
+        else:
+            rec.violation("special:D:encode-alias-of-union-member-in-a-recursive-union", det(observed=f"{type(got).__name__}: {got!r}"[:200], expected=repr(nested), source=src),
+                          {"scenario": "special-D", "recursive_alias_with_alias_of_union_member": True, "exc": type(got).__name__ if isinstance(got, Exception) else None})
     else:
         eng = rng.choice(["as_dict", "as_list"])
         cfg_nt = rng.random() < 0.5
